@@ -140,6 +140,8 @@ fn run(id: &str, p: &Program, style: Option<render::Style>) -> Result<crate::pro
         None => compare_answers_src(id, p, None, 1),
         Some(st) => {
             let texts: Vec<String> = p.clauses.iter().map(|c| render::clause(c, &st)).collect();
+            // (rules longer than the parsers' documented 1000-byte limit are given through the API instead)
+            if texts.iter().any(|t| t.len() > 800) { return compare_answers_src(id, p, None, 1); }
             compare_answers_src(id, p, Some(&texts), 1)
         }
     }
